@@ -1,0 +1,12 @@
+//go:build verif
+
+// Machine-checked contracts for package l4subroute (comment-only; read by /verif/gvc).
+
+package l4subroute
+
+// A subroute compiles its route list with the handler that follows it as the fallback and runs it
+// on the same connection: the compiled router's precondition (the handler interface's) is met.
+//@ func (h *Handler) Handle(cx *layer4.Connection, next layer4.Handler) (err error)
+//@ requires wfcx(cx) && wf(cx) && !cx.matching && h != nil && !isnil(next)
+//@ requires[inv] h.logger != nil && validroutes(h.Routes)
+//@ safety C01 C02
